@@ -4646,3 +4646,58 @@ func dependsOnErrOf(ret *ssa.Return, c *ssa.Call) bool {
 		return ok && e.Tuple == ssa.Value(c) && e.Index == 1
 	})
 }
+
+// LOST-RULE-SKIP (C01): a candidate that went away during the scan does not fail the event.
+func ruleLostRuleSkip(w *World, r *Report) {
+	r.Rule("LOST-RULE-SKIP", "IndexedState.doFindRules collects the candidate ids from the rule index and then visits them; visiting one (finding it expired) can remove others (its deleteWith dependents) before the loop reaches them.  Therefore, from the lookup of a candidate in IdToFact, with the `present` outcome deleted, no error return is reachable: a candidate that is gone is skipped.  Failing instead makes the event fail for every rule, including the unrelated ones that match", 1)
+	fn := w.Method("core", "IndexedState", "doFindRules")
+	key := "fn=" + fname(fn)
+	present := map[bedge]bool{}
+	var lookups []ssa.Instruction
+	for _, b := range fn.Blocks {
+		for _, in := range b.Instrs {
+			if lk, ok := in.(*ssa.Lookup); ok && lk.CommaOk && isFieldLoad(lk.X, idxState, "IdToFact") {
+				lookups = append(lookups, in)
+			}
+		}
+		if len(b.Instrs) == 0 {
+			continue
+		}
+		ifi, ok := b.Instrs[len(b.Instrs)-1].(*ssa.If)
+		if !ok {
+			continue
+		}
+		ct, ok := decodeIf(ifi)
+		if !ok {
+			continue
+		}
+		ex, ok := resolveSpill(ct.V).(*ssa.Extract)
+		if !ok || ex.Index != 1 {
+			continue
+		}
+		lk, ok := ex.Tuple.(*ssa.Lookup)
+		if !ok || !lk.CommaOk || !isFieldLoad(lk.X, idxState, "IdToFact") {
+			continue
+		}
+		if ct.TrueWhen == "true" {
+			present[bedge{b, 0}] = true
+		} else if ct.TrueWhen == "false" {
+			present[bedge{b, 1}] = true
+		}
+	}
+	if len(lookups) == 0 || len(present) == 0 {
+		r.exempt("LOST-RULE-SKIP", key, w.Pos(fn.Pos()), "doFindRules does not test a comma-ok lookup in IdToFact: shape not recognised, not decided")
+		return
+	}
+	isErrRet := func(in ssa.Instruction) bool {
+		_, ok := in.(*ssa.Return)
+		return ok && !isSuccessReturnPS(in)
+	}
+	for _, lk := range lookups {
+		if h, path := reach(fn, lk, isErrRet, nil, edgeFilterOf(present)); h != nil {
+			r.violation("LOST-RULE-SKIP", key, w.PosOf(h), "a candidate whose fact is gone (removed by the expiry cascade of an earlier candidate) makes doFindRules fail: no rule is evaluated for the event", blockPathString(w, path)...)
+			return
+		}
+	}
+	r.ok("LOST-RULE-SKIP", key, w.PosOf(lookups[0]), "a candidate that is gone is skipped")
+}
